@@ -13,7 +13,7 @@ Bad(r) ==
   (IF Len(r.obs) # n THEN {"C12_CommandCount"} ELSE {})
   \cup (IF \E i \in 1..Len(r.obs) : i <= n /\ r.obs[i].lens # r.cmds[i] THEN {"C12_ArgumentLengths"} ELSE {})
   \cup (IF \E i \in 1..Len(r.obs) : ~r.obs[i].same THEN {"C12_ArgumentBytesAltered"} ELSE {})
-  \cup (IF \E i \in 1..Len(r.obs) : i <= n /\ r.obs[i].off # EndOff(r.start, r.hb, r.cmds, i) THEN {"C12_OffsetNotBytesConsumed"} ELSE {})
+  \cup (IF \E i \in 1..Len(r.obs) : i <= n /\ r.obs[i].off # EndOffI(r.start, r.hb, r.cmds, r.inl, i) THEN {"C12_OffsetNotBytesConsumed"} ELSE {})
 
 Init == l = 1
 Next == /\ l <= Len(Trace) /\ l' = l + 1
